@@ -91,6 +91,8 @@ fn pad_to(parts: &mut Vec<E>, size: &mut usize, target: usize) {
 
 pub struct IsaGen {
     pub size_static: bool,
+    /// rules may carry assert(...) constraints on operands or on the position
+    pub asserts: bool,
 }
 
 impl IsaGen {
@@ -200,7 +202,7 @@ impl IsaGen {
                         parts.insert(1.min(parts.len()), e);
                     }
                     size += s;
-                    if !matches!(ty, PType::Sub(_)) && t.chance(1, 8) {
+                    if self.asserts && !matches!(ty, PType::Sub(_)) && t.chance(1, 8) {
                         let bound = lit_of(*t.pick(&[0u64, 1, 8, 100, 128]));
                         let op = *t.pick(&[BinOp::Lt, BinOp::Ge, BinOp::Ne]);
                         asserts.push(E::Call("assert".into(), vec![E::Bin(op, Box::new(var(name)), Box::new(bound))]));
@@ -231,7 +233,7 @@ impl IsaGen {
         }
         // rules whose production has no parameter but asserts something about the position
         // (or about a global symbol): their constraint can only be judged with final addresses
-        let npos = t.weighted(&[3, 2, 1]);
+        let npos = if self.asserts { t.weighted(&[3, 2, 1]) } else { 0 };
         for k in 0..npos {
             let mn = t.pick(&mns).to_string();
             let cond = match t.draw(5) {
